@@ -234,6 +234,49 @@ def gen_edit(rng, sh, t, uid, pinned, focus=None):
     return ["rmeq", t, list(p), rng.randint(0, 5)]
 
 
+def gen_transplant(rng, shadows, kinds_root_only, pinned):
+    """add_class, to tree td, of a class obtained from tree ts (other tree, or another package of the same tree) by
+    find_class(copy=True) / copy.deepcopy(cls); 60%: same package path in the other tree (replaces the same-named class)"""
+    idx = [i for i, s in enumerate(shadows) if (s.kind == "root" or not kinds_root_only)]
+    if not idx:
+        return None
+    ts = rng.choice(idx)
+    src = [p for p in shadows[ts].cls if p and shadows[ts].cls[p] in ("model", "connector", "package")]
+    if not src:
+        return None
+    sp = rng.choice(src)
+    others = [i for i in idx if i != ts and shadows[i].kind == "root"]
+    if others and rng.random() < 0.7:
+        td = rng.choice(others)
+    else:
+        td = ts if shadows[ts].kind == "root" else (rng.choice(others) if others else None)
+    if td is None:
+        return None
+    shd = shadows[td]
+    if td != ts and sp[:-1] in shd.cls and rng.random() < 0.75:
+        dp = sp[:-1]
+    else:
+        cand = [p for p in shd.cls if shd.cls[p] in ("package", "root") and p + (sp[-1],) != sp or td != ts]
+        cand = [p for p in cand if not (td == ts and (p[:len(sp)] == sp))]
+        if not cand:
+            return None
+        dp = rng.choice(sorted(cand))
+    tgt = dp + (sp[-1],)
+    if td == ts and tgt == sp:
+        return None
+    if any(pt == td and q[:len(tgt)] == tgt for pt, q in pinned):
+        return None
+    for q in [q for q in shd.cls if q[:len(tgt)] == tgt]:
+        del shd.cls[q], shd.syms[q], shd.neq[q]
+    n = len(sp)
+    for q in [q for q in shadows[ts].cls if q[:n] == sp]:
+        shd.cls[tgt + q[n:]] = shadows[ts].cls[q]
+        shd.syms[tgt + q[n:]] = list(shadows[ts].syms[q])
+        shd.neq[tgt + q[n:]] = shadows[ts].neq[q]
+    how = "fc" if (shadows[ts].kind == "root" and rng.random() < 0.5) else "dc"
+    return ["transplant", td, list(dp), ts, list(sp), how]
+
+
 def gen_oracle_case(rng, nops):
     lib = gen_library(rng)
     users = {tuple(k.split(".")): [tuple(u.split(".")) for u in v] for k, v in lib["users"].items()}
@@ -273,11 +316,22 @@ def gen_oracle_case(rng, nops):
         elif x < 0.62:
             t = rng.choice(roots)
             focus = rng.choice(used) if (used and rng.random() < 0.6) else None
-            e = gen_edit(rng, shadows[t], t, uid, [], focus)
+            if len(roots) > 1 and rng.random() < 0.3:
+                e = gen_transplant(rng, shadows, True, [])
+                if e is not None:
+                    t = e[1]
+            else:
+                e = gen_edit(rng, shadows[t], t, uid, [], focus)
             if e is None:
                 continue
             ops.append(e)
-            near = tuple(e[2]) if e[0] != "rmclass" else tuple(e[2]) + (e[3],)
+            if e[0] == "transplant":
+                near = tuple(e[2]) + (e[4][-1],)
+                if tuple(e[4]) in users:
+                    users.setdefault(near, [])
+                    users[near] = list(set(users[near] + users[tuple(e[4])]))
+            else:
+                near = tuple(e[2]) if e[0] != "rmclass" else tuple(e[2]) + (e[3],)
             flatten_op(t, near)
             others = [r for r in roots if r != t]
             if others:
@@ -313,6 +367,10 @@ def gen_graph_case(rng, nops):
             shadows.append(sh.sub(p))
             rootpar.append((t, p[:-1]))
             pinned.append((t, p[:-1]))
+        elif x < 0.6 and len(shadows) > 1:
+            e = gen_transplant(rng, shadows, False, pinned)
+            if e is not None:
+                ops.append(e)
         else:
             e = gen_edit(rng, sh, t, uid, pinned)
             if e is not None:
@@ -339,6 +397,10 @@ def judge(case, out):
                 return "op %d %s: copy has a different type" % (i, op)
             if op[0] == "fc" and not (r["parent_is_original"] and r["fresh"]):
                 return "op %d %s: find_class(copy=True) did not return a fresh class under the original parent" % (i, op)
+        elif op[0] == "transplant":
+            if not r.get("source_unchanged", True):
+                return ("op %d %s: add_class of a class copied out of tree %d changed tree %d itself"
+                        % (i, op, op[3], op[3]))
         elif op[0] in ("flatten", "sympy", "xml"):
             if r["got"][:2] != r["want"][:2]:
                 return ("op %d %s of %s in tree %d gives %s; a fresh parse with this tree's own edits gives %s"
@@ -477,6 +539,12 @@ def encode_graph_case(flags, case, out):
                                                      enc_cd(nm, ["w%d" % op[4]], 1)))
         elif k == "rmclass":
             ops.append("RmClass (%s, %s) %s" % (cq_nat(op[1]), enc_path(nm, op[2]), cq_nat(nm("c:" + op[3]))))
+        elif k == "transplant":
+            tgt = op[2] + [op[4][-1]]
+            ents = [n for n in graphs[i + 1][op[1]] if n[0][:len(tgt)] == tgt]
+            ops.append("AddTree (%s, %s) %s %s" % (cq_nat(op[1]), enc_path(nm, op[2]), cq_nat(nm("c:" + op[4][-1])),
+                                                   cq_list(["(%s, %s)" % (enc_path(nm, n[0][len(tgt):]), enc_cd(nm, n[1], n[2]))
+                                                            for n in ents])))
         else:
             after = [n for n in graphs[i + 1][op[1]] if n[0] == op[2]]
             cd = enc_cd(nm, after[0][1], after[0][2]) if after else "(CD [] 0)"
